@@ -739,3 +739,23 @@ func partialUpdates(al *ssa.Alloc, visit func(ssa.Value) bool) bool {
 	}
 	return refs(al, 0)
 }
+
+// accumulatingRead: the raw Read call asks for "the rest" on every round - its buffer argument is
+// a slice whose lower bound depends on the count the same call returned earlier (buf[n:] with
+// n += m), so a short read is followed by another read for the remainder.
+func accumulatingRead(ci ssa.CallInstruction) bool {
+	v := ci.Value()
+	if v == nil || !reachable(ci.Block(), ci.Block(), nil) {
+		return false
+	}
+	args := ci.Common().Args
+	buf := args[len(args)-1]
+	sl, ok := buf.(*ssa.Slice)
+	if !ok || sl.Low == nil {
+		return false
+	}
+	return dependsOn(sl.Low, func(x ssa.Value) bool {
+		ex, ok := x.(*ssa.Extract)
+		return ok && ex.Tuple == v && ex.Index == 0
+	})
+}
